@@ -733,6 +733,7 @@ func (h *c20H) do(op *c20Op) (wire, golit string, ok bool) {
 			g.ps.AddAllSteps(p.path)
 			if len(p.path) > 0 {
 				p.given["psAdd"] = true // retained exactly as by Add
+				p.given["psAddAllSteps"] = true
 			}
 			apiWire, apiLit = fmt.Sprintf("(psAddAllSteps %d %d %s)", op.a, op.b, c20ints(hs)), fmt.Sprintf("%s.AddAllSteps(%s)", gname(op.a), gname(op.b))
 		case "psList":
